@@ -260,7 +260,7 @@ impl Prop for C18 {
     }
     fn plan(&self, tier: Tier) -> Plan {
         match tier {
-            Tier::Quick => Plan { cases: 1_200, tape_len: 600 },
+            Tier::Quick => Plan { cases: 2_000, tape_len: 600 },
             Tier::Thorough => Plan { cases: 40_000, tape_len: 700 },
         }
     }
